@@ -1152,4 +1152,36 @@ example : qpskIsComplex 2 [1, 2] [1, 0] [[1, -1], [1, 1]] [[0, 0], [0, 0]] = tru
     ∧ (mimoQpsk 2 [1, 2] [1, 0] [[1, -1], [1, 1]] [[0, 0], [0, 0]]).map
         (fun bag => ((Bq.empty .spin : Bq Label).apply bag).lin.length) = some 4 := by decide +kernel
 
+/-! ## quadrature amplitude modulations (16QAM, 64QAM, 256QAM as repaired: 4 amplitude bits per quadrature) -/
+
+/-- **`mimo` with `na` amplitude bits per quadrature, quadrature form: the energy is the residual of the stacked real system whose
+    channel rows are `row, 2·row, …, 2^(na−1)·row` side by side** — i.e. `‖y − F·v‖²` for the symbols
+    `v_i = Σ_a 2^a·(p_a[i] + i·q_a[i])`, variables ordered by amplitude bit, within one bit the real parts then the imaginary parts -/
+theorem mimo_qam_energy (na nt : Nat) (yr yi : List Rat) (Fr Fi : List (List Rat)) (bag : List (PTerm Label))
+    (h : mimoQam na nt yr yi Fr Fi = some bag) (hc : qpskIsComplex nt yr yi Fr Fi = true) (x : Label → Rat) :
+    evalBag x bag = residual x (na * (2 * nt)) (yr ++ yi) (ampRows na (stackF Fr Fi)) := by
+  unfold mimoQam at h
+  split at h
+  · simp at h
+  · try rw [if_pos hc] at h
+    exact mimo_bpsk_energy _ _ _ bag h x
+
+/-- the number of variables per row of the amplitude-expanded channel: `na` copies -/
+theorem ampRows_width (na : Nat) (F : List (List Rat)) (w : Nat) (hw : ∀ row ∈ F, row.length = w) :
+    ∀ row ∈ ampRows na F, row.length = na * w := by
+  intro row hrow
+  unfold ampRows at hrow
+  simp only [List.mem_map] at hrow
+  obtain ⟨r0, hr0, rfl⟩ := hrow
+  have hlen := hw r0 hr0
+  have : ∀ n : Nat, ((List.range n).flatMap (fun a => r0.map (fun c => ((2 ^ a : Nat) : Rat) * c))).length = n * w := by
+    intro n
+    induction n with
+    | zero => simp
+    | succ k ih => rw [List.range_succ, List.flatMap_append, List.length_append, ih]; simp [hlen, Nat.succ_mul]
+  exact this na
+
+example : (mimoQam 2 1 [1] [1] [[1]] [[2]]).map (fun bag => ((Bq.empty .spin : Bq Label).apply bag).lin.length) = some 4 := by decide +kernel
+example : (mimoQam 4 1 [1] [1] [[1]] [[2]]).map (fun bag => ((Bq.empty .spin : Bq Label).apply bag).lin.length) = some 8 := by decide +kernel
+
 end C17
